@@ -374,6 +374,10 @@ def oracle_c05(case, steps):
             bad.append('sys.modules lost %s' % ob['modules_removed'][:3])
         if ob['patch_depth'] or ob['stdout_depth']:
             bad.append('stacks patches=%d stdout=%d' % (ob['patch_depth'], ob['stdout_depth']))
+        if not all(ob.get('nested_restored', [])):
+            bad.append('what the OUTER execution had in force (its stdout capture, sleep, stack depth) after a nested call() returned')
+        if st.get('nested') and ob['escaped'] is None and 'b' not in ob['raw_output'].split():
+            bad.append('the outer execution\'s output after the nested call (raw output %r)' % ob['raw_output'][-40:])
         if bad:
             return ('leak:%s:%s' % (key_of(case), case['entry']),
                     'after step %d (%s) of %s: not restored: %s' % (i, st['entry'], case['tag'], ', '.join(bad)))
